@@ -55,8 +55,7 @@ ASSUMPTIONS = [
     'inspected |rho_t| < 1e-9 are skipped as ambiguous (truncation point not determined in floating point)',
     'split R-hat reference = sqrt(((n-1)/n W + B/n)/W) over the 2M half chains; for an odd chain length dropping the last, the middle '
     'or the first draw are all accepted; rtol 1e-9 for formula and invariance checks',
-    'statistics are queried before the first save: Sample.save(.json) converts the in-memory sample columns to lists as a side effect '
-    '(counted as info_json_save_left_lists_in_memory, not judged: the statement is about the file read back)',
+    'structure and statistics of the object are judged again after it has been saved (a saved sample object is still a sample object)',
 ]
 CONFIG = {
     'quick': {'shards': 16, 'cases': 600, 'timeout': 600, 'floor': 1920},
@@ -76,10 +75,9 @@ WEIGHT_FLAVOURS = ['none', 'random', 'zeros', 'normalised', 'pow2']
 QTOL = 1e-12
 RTOL = 1e-9
 AMBIG = 1e-9
-# Sample.save('x.json') replaces the in-memory sample columns by python lists (numpy_to_python_type works on the object's own
-# `samples` dict); afterwards sample_means_and_95CIs raises TypeError.  The statement speaks about the file that is read back, so
-# this is only counted (info_json_save_left_lists_in_memory).  Set to True to also judge the in-memory object after the saves.
-JUDGE_OBJECT_AFTER_SAVE = False
+# Sample.save('x.json') used to replace the in-memory sample columns by python lists (numpy_to_python_type worked on the object's
+# own `samples` dict; repaired in /repo, see known_findings.json): the object is judged again after the saves.
+JUDGE_OBJECT_AFTER_SAVE = True
 
 
 # ----------------------------------------------------------------------------------------
